@@ -417,6 +417,9 @@ MUTATIONS = [
     {'id': 'c15-revert-transceiver-without-successor', 'props': ['C15'], 'tests': 'tests/test_spectrum_assignment.py',
      'desc': 'revert of the fix: build_oms_list raises StopIteration for a transceiver without successor (one-directional line)',
      'edits': [('gnpy/topology/spectrum_assignment.py', "next(network.successors(n), None), Roadm)]", "next(network.successors(n)), Roadm)]")]},
+    {'id': 'c05-revert-pmd-coef-zero-is-a-value', 'props': ['C05'], 'tests': 'tests/test_parser.py tests/test_network_functions.py',
+     'desc': 'revert of the fix: an element-level pmd_coef of 0 is treated as missing and replaced by the library value',
+     'edits': [('gnpy/core/utils.py', "    if 'pmd_coef' in dict1 and dict1['pmd_coef'] is None \\\n", "    if 'pmd_coef' in dict1 and not dict1['pmd_coef'] \\\n")]},
     {'id': 'c11-revert-explicit-ispart', 'props': ['C11'], 'tests': 'tests/test_path_computation_functions.py tests/test_disjunction.py',
      'desc': 'revert of fix e50d35fe: explicit route returned without checking the listed nodes are crossed in order',
      'edits': [('gnpy/topology/request.py', "    if total_path is not None and ispart(nodes_list, total_path):",
